@@ -203,7 +203,7 @@ def part1(acc, n, chain, depth, deadline):
             closed = True
             break
         shards = [(n, chain_items, c) for c in chunks(frontier, 64)]
-        sub = run_shards(p1_expand, shards, deadline)
+        sub = run_shards(p1_expand, shards, deadline, persistent=True)
         nxt = sub.info.pop("next", [])
         acc.merge(sub)
         frontier = []
